@@ -159,6 +159,61 @@ Section VrfProofs.
     now rewrite zmul_add_l, (zmul_multiple H l q Hl), gadd_0_r.
   Qed.
 
+  (** *** key validity is a genuine precondition
+      [Deserial for PublicKey] rejects points of small order ([is_small_order], i.e. 8*Y = 0).
+      Without that check nothing is left: for a key killed by [d] (d = 1, 2, 4, 8) the proof
+      (Gamma = 0, c, s = k) with c = hash_points(H, 0, k*B, k*H) is accepted for EVERY input as soon
+      as d divides c (one nonce in d under the random oracle; unconditionally for the identity
+      key), it needs no secret, and its output is the same for all inputs. *)
+  Lemma gopp_zero : gopp gzero = gzero.
+  Proof. rewrite <- (gadd_0_l (gopp gzero)). apply gadd_opp_r. Qed.
+
+  Lemma gsub_zero a : gsub a gzero = a.
+  Proof. unfold Vrf.gsub. rewrite gopp_zero. apply gadd_0_r. Qed.
+
+  Lemma vrf_small_order_key_forgeable_l Y alpha H k d :
+    h2c Y alpha = Some H -> zmul d Y = gzero ->
+    (d | hpoints (H, gzero, zmul k B, zmul k H)) ->
+    vrf_verify Y (gzero, hpoints (H, gzero, zmul k B, zmul k H), k) alpha = true /\
+    vrf_to_hash (gzero, hpoints (H, gzero, zmul k B, zmul k H), k) = hout gzero.
+  Proof.
+    intros EH HY [q Hq]. split.
+    - unfold Vrf.vrf_verify. rewrite EH. cbn [fst snd].
+      set (c := hpoints (H, gzero, zmul k B, zmul k H)) in *.
+      assert (EU : gsub (zmul k B) (zmul c Y) = zmul k B).
+      { rewrite Hq, zmul_mul, HY, zmul_0_r. apply gsub_zero. }
+      assert (EV : gsub (zmul k H) (zmul c gzero) = zmul k H).
+      { rewrite zmul_0_r. apply gsub_zero. }
+      rewrite EU, EV. apply Z.eqb_refl.
+    - unfold Vrf.vrf_to_hash. cbn [fst]. now rewrite zmul_0_r.
+  Qed.
+
+  Lemma vrf_identity_key_forgeable_l alpha H k :
+    h2c gzero alpha = Some H ->
+    vrf_verify gzero (gzero, hpoints (H, gzero, zmul k B, zmul k H), k) alpha = true.
+  Proof.
+    intros EH. apply (vrf_small_order_key_forgeable_l gzero alpha H k 1 EH).
+    - apply zmul_1.
+    - apply Z.divide_1_l.
+  Qed.
+
+  (** for a small-order key the attested relation is satisfied by Gamma = 0 (secret "0") ... *)
+  Lemma dleq_small_order_key_l Y H : zmul 8 Y = gzero -> dleq Y H gzero.
+  Proof.
+    intros HY. exists 0. unfold cofactor. rewrite Z.mul_0_r, !zmul_0_l, zmul_0_r. split; [exact HY | reflexivity].
+  Qed.
+
+  (** ... whereas for a VALID key (8*Y <> 0) no Gamma of small order satisfies it: the output of a
+      valid key is never the degenerate constant.  This is where key validity is needed. *)
+  Lemma vrf_valid_key_excludes_small_order_gamma_l Y H gamma :
+    zmul 8 Y <> gzero ->
+    (forall n, zmul n H = gzero <-> (l | n)) ->
+    dleq Y H gamma -> zmul 8 gamma <> gzero.
+  Proof.
+    intros HY HH (x & EY & EG) Z8. unfold cofactor in *. apply HY.
+    rewrite EY. apply B_order. apply HH. now rewrite <- EG.
+  Qed.
+
   (** *** binding: the challenge covers H (hence key and input) and Gamma *)
   Lemma vrf_challenge_binds_gamma_l Y alpha gamma1 gamma2 c s1 s2 :
     vrf_verify Y (gamma1, c, s1) alpha = true -> vrf_verify Y (gamma2, c, s2) alpha = true ->
